@@ -81,10 +81,15 @@ def groupVal (cfg : GenCfg) : Term → Except Err PyVal
   | .str s => do pure (.str (← readBackStr cfg true s))
   | _ => throw (.other "group-definition-not-literal")
 
-def lowerReturn (cfg : GenCfg) (gs : List Group) : Except Err Line := do
+/-- population and weights a return statement passes to `deterministic_choice` -/
+def retVals (cfg : GenCfg) (gs : List Group) : Except Err (List PyVal × List Num) := do
   let pop ← gs.mapM (fun g => groupVal cfg g.defn)
   let _ ← gs.mapM (fun g => renderWeight g.weight)
-  pure (.ret pop (gs.map (·.weight)))
+  pure (pop, gs.map (·.weight))
+
+def lowerReturn (cfg : GenCfg) (gs : List Group) : Except Err Line := do
+  let (pop, ws) ← retVals cfg gs
+  pure (.ret pop ws)
 
 mutual
 def linesCond (cfg : GenCfg) (d : Nat) : Cond → Except Err (List ILine)
@@ -164,38 +169,59 @@ def evalExpr (env : Env) : PExpr → Except Err Bool
 
 /-! ### executing indented lines -/
 
-/-- drop the lines of a body: everything indented deeper than `d` -/
-def skipBody (d : Nat) : List ILine → List ILine
-  | [] => []
-  | (i, l) :: rest => if i > d then skipBody d rest else (i, l) :: rest
+/-- where the interpreter is in an `if / elif / else` chain -/
+inductive Mode where
+  | exec                      -- executing statements normally
+  | seek (d : Nat)            -- an `if`/`elif` at depth `d` was false: skip its body, look for the next clause
+  | skipChain (d : Nat)       -- a branch of the chain at depth `d` was taken and ended: skip the remaining clauses
+deriving Repr, DecidableEq, Inhabited
 
-/-- Python's control flow over the emitted lines.
-    * normal mode: execute the head line; an `elif`/`else` met in normal flow means the
-      body of a taken sibling branch just ended, so the clause and its body are skipped;
-    * `afterFalse d`: an `if`/`elif` at depth `d` was false and its body has been skipped;
-      an `elif`/`else` at the same depth continues the chain.
-    `fuel` ≥ 2 × number of lines + 2 suffices. -/
-def runLines (env : Env) : Nat → Option Nat → List ILine → Except Err (List PyVal × List Num)
-  | 0, _, _ => throw (.other "fuel")
-  | _ + 1, _, [] => throw (.other "fell-off-end")        -- function would return None
-  | fuel + 1, none, (d, line) :: rest =>
-    match line with
-    | .ret pop ws => pure (pop, ws)
-    | .raiseU => throw .unroutable
-    | .ifL e => do
-        if (← evalExpr env e) then runLines env fuel none rest
-        else runLines env fuel (some d) (skipBody d rest)
-    | .elifL _ => runLines env fuel none (skipBody d rest)
-    | .elseL => runLines env fuel none (skipBody d rest)
-  | fuel + 1, some d, (d', line) :: rest =>
-    if d' == d then
-      match line with
-      | .elifL e => do
-          if (← evalExpr env e) then runLines env fuel none rest
-          else runLines env fuel (some d) (skipBody d rest)
-      | .elseL => runLines env fuel none rest
-      | _ => runLines env fuel none ((d', line) :: rest)
-    else runLines env fuel none ((d', line) :: rest)
+/-- what one line does, given where the interpreter is in a chain -/
+inductive Act where
+  | goto (m : Mode)                              -- continue with the next line in mode `m`
+  | branch (e : PExpr) (mTrue mFalse : Mode)     -- evaluate `e`, continue accordingly
+  | done (r : Except Err (List PyVal × List Num)) -- `return` / `raise`
+deriving Inhabited
+
+/-- a line executed normally -/
+def execAct (d' : Nat) : Line → Act
+  | .ret pop ws => .done (pure (pop, ws))
+  | .raiseU => .done (throw .unroutable)
+  | .ifL e => .branch e .exec (.seek d')
+  -- an `elif`/`else` met while executing normally: the body of a taken sibling branch
+  -- just fell through, so the rest of the chain is skipped
+  | .elifL _ => .goto (.skipChain d')
+  | .elseL => .goto (.skipChain d')
+
+def classify : Mode → Nat → Line → Act
+  | .exec, d', line => execAct d' line
+  | .seek d, d', line =>
+      if d' > d then .goto (.seek d)
+      else if d' == d then
+        match line with
+        | .elifL e => .branch e .exec (.seek d)
+        | .elseL => .goto .exec
+        | _ => execAct d' line
+      else execAct d' line
+  | .skipChain d, d', line =>
+      if d' > d then .goto (.skipChain d)
+      else if d' == d then
+        match line with
+        | .elifL _ => .goto (.skipChain d)
+        | .elseL => .goto (.skipChain d)
+        | _ => execAct d' line
+      else execAct d' line
+
+/-- Python's control flow over the emitted lines, one line per step (structural in the
+    list); falling off the end of the function body would return `None`. -/
+def runLines (env : Env) : Mode → List ILine → Except Err (List PyVal × List Num)
+  | _, [] => throw (.other "fell-off-end")
+  | mode, (d', line) :: rest =>
+    match classify mode d' line with
+    | .goto m => runLines env m rest
+    | .branch e m1 m2 => do
+        if (← evalExpr env e) then runLines env m1 rest else runLines env m2 rest
+    | .done r => r
 
 /-- indentation well-formedness that `compile()` enforces on the body:
     a header is followed by a line exactly one level deeper (the generator's step),
@@ -267,7 +293,7 @@ def runGenerated (cfg : RunCfg) (e : Experiment) (env : Env) : Except Err Outcom
   -- binding of keyword arguments to the declared parameters
   if !params.all (fun p => (env.get p).isSome) then throw .missingField
   let lines ← bodyLines cfg.toGenCfg 2 e.cond
-  let (pop, ws) ← runLines env (2 * lines.length + 2) none lines
+  let (pop, ws) ← runLines env .exec lines
   match e.localVars with
   | [] =>
       match ← Choice.choiceIdx none pop.length (some ws) none with
